@@ -18,7 +18,7 @@ var Plans = map[string][]PlanItem{
 	"C17": {{Scen: "tree", Quick: 3000, Thorough: 200000}},
 	"C12": {{Scen: "persist-fault", Quick: 160, Thorough: 12000}, {Scen: "lifecycle", Quick: 800, Thorough: 60000}},
 	"C19": {{Scen: "read-fault", Quick: 640, Thorough: 40000}, {Scen: "read-fault-large", Quick: 160, Thorough: 12000}},
-	"C09": {{Scen: "concurrent", Quick: 4000, Thorough: 300000}},
+	"C09": {{Scen: "concurrent", Quick: 3600, Thorough: 300000}},
 	"C14": {{Scen: "build-history", Quick: 2500, Thorough: 150000}},
 	"C10": {{Scen: "interop", Quick: 2500, Thorough: 150000}, {Scen: "golden", Quick: 400, Thorough: 2000}},
 	"C11": {{Scen: "world", Quick: 3000, Thorough: 150000}, {Scen: "persist-fault", Quick: 48, Thorough: 2000}, {Scen: "aligned", Quick: 8, Thorough: 96}},
@@ -41,7 +41,7 @@ func LevelOf(prop string) string {
 // RacePlans: cases additionally executed by the -race build of the same
 // engine (baton invisible to the detector, see baton_pipe.go).
 var RacePlans = map[string][]PlanItem{
-	"C09": {{Scen: "concurrent", Quick: 800, Thorough: 50000}},
+	"C09": {{Scen: "concurrent", Quick: 640, Thorough: 50000}},
 	"C14": {{Scen: "build-history", Quick: 500, Thorough: 25000}},
 }
 
